@@ -194,7 +194,7 @@ pub fn h_list_small() {
     let k = 1 + sym::choose("nlines", nl);
     let mut i = 0;
     while i < k {
-        text.extend_from_slice(&sym::any_bytes("l", "hex:61,40,20,09,a0", 0, sym::bound(2, 3)));
+        text.extend_from_slice(&sym::any_bytes("l", "hex:61,40,20,09,a0", 0, 2));
         if i + 1 < k || sym::choose("finalnl", 2) == 0 {
             text.push(b'\n');
         }
@@ -206,7 +206,7 @@ pub fn h_list_small() {
 /// realistic lines (commands with arguments) in a list
 pub fn h_list_lines() {
     let mut text: Vec<u8> = Vec::new();
-    let k = 1 + sym::choose("nlines", sym::bound(2, 3));
+    let k = 1 + sym::choose("nlines", 2);
     let mut i = 0;
     while i < k {
         match sym::choose("kind", 5) {
